@@ -52,7 +52,7 @@ pub fn register(l: &mut Vec<Obl>) {
             r
         });
     obl!(l; "c09_lch_equals_lab", "C09", Tier::Quick,
-        "the polar (Lch) Delta E and improved Delta E equal the rectangular (Lab) ones on the converted colours (same terms), and equal the closed form on chroma/hue: dE^2 = dL^2 + C1^2 + C2^2 - 2 C1 C2 cos(h1 - h2) (1e-6)",
+        "the polar (Lch) Delta E and improved Delta E equal the rectangular (Lab) ones on the converted colours within 1e-4 (today the same terms, decided by hash-consing; a different but equivalent polar closed form would be decided by the solver and must not raise an alarm for differing only by rounding)",
         ["<Lch as DeltaE>::delta_e", "<Lch as ImprovedDeltaE>::improved_delta_e", "<Lab as FromColorUnclamped<Lch>>"],
         [var("l1", 0.0, 100.0), var("c1", 0.0, 150.0), var("h1", -180.0, 180.0), var("l2", 0.0, 100.0), var("c2", 0.0, 150.0), var("h2", -180.0, 180.0)];
         |v| {
@@ -60,8 +60,8 @@ pub fn register(l: &mut Vec<Obl>) {
             let mut r = Res::<B>::new();
             let (x, y) = (Lch::<wp::D65, T>::new(v[0], v[1], v[2]), Lch::<wp::D65, T>::new(v[3], v[4], v[5]));
             let (lx, ly) = (Lab::<wp::D65, T>::from_color_unclamped(x), Lab::<wp::D65, T>::from_color_unclamped(y));
-            r.goal("delta_e_same_terms", x.delta_e(y).eqv(lx.delta_e(ly)));
-            r.goal("improved_same_terms", x.improved_delta_e(y).eqv(lx.improved_delta_e(ly)));
+            r.goal("delta_e_equal", x.delta_e(y).close(lx.delta_e(ly), 1e-4));
+            r.goal("improved_equal", x.improved_delta_e(y).close(lx.improved_delta_e(ly), 1e-4));
             r
         });
     obl!(l; "c09_wcag_contrast", "C09", Tier::Quick,
@@ -78,6 +78,13 @@ pub fn register(l: &mut Vec<Obl>) {
             r.goal("ratio", c.close(expect, 0.05));
             r.goal("symmetric", c.close(y.relative_contrast(x), 1e-9));
             r.goal("range", c.within_tol(1.0, 21.0, 1e-9));
+            // threshold predicates: exactly "ratio >= constant" with the constants of WCAG 2.1 SC 1.4.3 / 1.4.6 / 1.4.11
+            let iff = |p: B, q: B| p.implies(q) & q.implies(p);
+            r.goal("min_contrast_text_is_4_5", iff(x.has_min_contrast_text(y), c.ge(T::k(4.5))));
+            r.goal("min_contrast_large_text_is_3", iff(x.has_min_contrast_large_text(y), c.ge(T::k(3.0))));
+            r.goal("enhanced_contrast_text_is_7", iff(x.has_enhanced_contrast_text(y), c.ge(T::k(7.0))));
+            r.goal("enhanced_contrast_large_text_is_4_5", iff(x.has_enhanced_contrast_large_text(y), c.ge(T::k(4.5))));
+            r.goal("min_contrast_graphics_is_3", iff(x.has_min_contrast_graphics(y), c.ge(T::k(3.0))));
             r
         });
     obl!(l; "c09_ciede2000_laws", "C09", Tier::Thorough,
